@@ -110,3 +110,59 @@ def poison_panic(res):
     evs = [e for e in res.events if e.kind in ('call', 'panic')]
     names = [e.name for e in evs]
     return len(names) >= 2 and re.search(r'RwLock::(read|write)$', names[-2]) is not None and 'unwrap' in names[-1]
+
+
+# ----------------------------------------------------------------------------- std RwLock / tokio timeout contracts (property-level models)
+def lock_models(cells):
+    """RwLock::<T>::read/write(&lock) -> Ok(guard) whose Deref target is ONE canonical cell per guarded type T.
+    `cells`: [(regex on T, cell name, factory(p) -> initial value)].  Assumptions (stated by the callers): the lock is not
+    poisoned; the crate has a single instance of each guarded type per network (one KnownPeers table, one ActivePeers)."""
+    def m_lock(ex, p, call, k):
+        m = re.search(r'RwLock::<(.*)>::(read|write)$', call.callee if isinstance(call.callee, str) else '')
+        if not m:
+            return NotImplemented
+        ty = m.group(1)
+        for pat, name, mk in cells:
+            if re.search(pat, re.sub(r'\s+', '', ty)):
+                cell = ('H', name, ty)
+                if cell not in p.mem:
+                    p.mem[cell] = mk(p)
+                p.events.append(Event('lock', 'RwLock::' + m.group(2), (Str(name),), None, call.span, call.depth))
+                return k(p, MD.ok(Ptr(cell, (), m.group(2) == 'write', ty)))
+        return NotImplemented
+    return [(r'RwLock::(read|write)$', m_lock)]
+
+
+def timeout_models():
+    """tokio::time::timeout(d, fut): polling it polls `fut`; Ready(v) -> Ready(Ok(v)); while `fut` is pending the
+    timeout is either Pending or Ready(Err(Elapsed)) (the deadline is a symbolic variable)."""
+    def m_timeout(ex, p, call, k):
+        n = p.seq('timeout')
+        p.events.append(Event('timeout', 'tokio::time::timeout', (call.args[0],), None, call.span, call.depth))
+        k(p, Sym(f'timeout#{n}', 'tokio::time::Timeout').with_ov('inner', call.args[1]))
+
+    def m_poll_timeout(ex, p, call, k):
+        pin = call.args[0]
+        fut = ex.deref(p, pin) if isinstance(pin, Ptr) else pin
+        if isinstance(fut, Agg) and fut.fields and isinstance(fut.fields[0], Ptr):
+            fut = ex.deref(p, fut.fields[0])
+        inner = fut.get_ov('inner') if isinstance(fut, Sym) else None
+        if inner is None:
+            return NotImplemented
+        cell = ('H', f'{fut.name}.inner', '')
+        if cell not in p.mem:
+            p.mem[cell] = inner
+        inner_ty = getattr(inner, 'ty', '') or ''
+        rt = MD.generic_arg(MD.poll_ready_ty(call.retty) or '', 0) or ''
+        c2 = Call('<%s as Future>::poll' % (inner_ty or 'F'), [Ptr(cell, (), True), call.args[1]], f'Poll<{rt}>', call.span, call.fn, call.depth, call.frame, None)
+
+        def after(q, ret):
+            if isinstance(ret, Agg) and ret.variant == 'Ready':
+                return k(q, Agg('Poll', 'Ready', (MD.ok(ret.fields[0]),)))
+            q2 = q.clone()
+            q2.events.append(Event('elapsed', 'tokio::time::timeout', (), None, call.span, call.depth))
+            k(q2, Agg('Poll', 'Ready', (MD.err(Sym('elapsed', 'tokio::time::error::Elapsed')),)))
+            if getattr(ex, 'explore_pending', True):
+                k(q, Agg('Poll', 'Pending', ()))
+        ex.dispatch(p, c2, after)
+    return [(r'(^|::)time::timeout$|^timeout$', m_timeout), (r'<(tokio::time::)?Timeout as Future>::poll$', m_poll_timeout)]
